@@ -64,7 +64,7 @@ CHECKS = {
     "C05": dict(level="fault_enumeration", jobs=[J("TestC05", (8, 40), (16, 350), timeout=(1200, 7200))],
                 rule="one evaluation = one crash image checked: a generated workload (publish batches with frequent rollover, single Delete in reader/head segments incl. rebasing/emptying/tail, reopen plain/Recover/EagerVersionMigrate/index files removed + lazy rebuild, package Migrate/Recover, Sync, GC) runs to completion under the FS tap, which snapshots the directory after EVERY file-system step; each snapshot is an image, each record/index-item append additionally yields torn variants (quick: 10 cut points, thorough: every byte), and the recovery of every n-th image / torn cut is itself run under the tap for depth-2 images; oracle = Open(Recover) succeeds, scan is one of the admissible logs computed from the uncrashed run, all views agree, NextOffset not backwards, second Recover byte-identical, appendable, Check passes; non-trivial = image directory differs from both the pre- and post-operation directory; distinct by (kind, op, delete outcome, FS site, normalised listing). Every 5th image is also recovered with Recover + the other NewSegmentsVersion + EagerVersionMigrate; every 4th image and every image of a crashed Delete is used further after recovery (one Delete per segment, Check, segment files re-read with the reference parser)",
                 level_note="granularity is the FS step plus torn appends; 8-byte file headers atomic (no file of length 1..7), as the property states; no reordering inside the kernel; relies on the verif-tag FS tap being complete (self-checked on every run: an unexplained directory change makes the run inconclusive)"),
-    "C06": dict(level="fault_enumeration", jobs=[J("TestC06", (8, 150), (16, 2000), timeout=(1200, 7200)), J("TestC06Concurrent", (2, 3), (8, 8), kind="plain")],
+    "C06": dict(level="fault_enumeration", jobs=[J("TestC06", (8, 150), (16, 2000), timeout=(1200, 7200)), J("TestC06Concurrent", (6, 3), (12, 8), kind="plain")],
                 rule="one evaluation = one power-loss image checked: same workloads as C05 plus Sync operations and AutoSync configurations; the tap tracks per file (followed across renames) the length at its last fsync; at every FS step images are synthesised under the stated tail-loss model: every file independently cut to a length in [fsynced, current] (all-min, each-file-min/others-max and vice versa, random vectors incl. record boundaries +-1, never a length in 1..7), directory entries as in the current directory; oracle = Open(Recover) succeeds, the scan is a prefix of an admissible log containing every live message below the acknowledged offset w (latest Sync return / AutoSync Publish return / Close), NextOffset >= w, views agree, appendable, Check passes; non-trivial = at least one file strictly shorter than current and w > 0; distinct by (op, FS site, w, listing). A second job runs 2-4 free-running publishers against a Sync loop (the writer mutex is pushed into starvation mode by holding it >1 ms at a pause point): every time Sync returns w, the durable prefixes of all files as of that moment (fsynced lengths from the tap; the files are append-only in this mix) are recovered and must hold every offset below w",
                 level_note="a simulation of the storage model the property states (per-file tail loss, directory operations durable in program order), not a disk; soundness depends on complete FS taps (self-checked; a gap makes the run inconclusive)"),
     "C07": dict(level="fault_enumeration", jobs=[J("TestC07", (4, 25), (16, 60)), J("FuzzRecoverBytes", (0, 0), (1, 60), kind="fuzz")],
